@@ -13,7 +13,7 @@ for p in sorted(glob.glob(os.path.join(V, "seeded", "*", "meta.json"))):
     det = m.get("detected_by", [])
     silent = [k for k, v in m.get("checks_run", {}).items() if v["rc"] == 0]
     need = (m.get("needs_to_manifest") or "").replace("|", "/").replace("\n", " ")
-    print(f"| {m['id']} | {m['breaks_property']} | {need[:260]} | {', '.join(det) if det else '**none**'} | {', '.join(silent)} |")
+    print(f"| {m['id']} | {m['breaks_property']} | {need[:170]} | {', '.join(det) if det else '**none**'} | {', '.join(silent)} |")
 for d in ("hand", "ast"):
     rf = os.path.join(V, "mutants", d, "results.json")
     if not os.path.exists(rf):
